@@ -80,7 +80,11 @@ class Stats:
             if len(self.samples) < 6:
                 self.samples.append(s)
         for k, v in d.get("extra", {}).items():
-            if isinstance(v, (int, float)):
+            if isinstance(v, bool):
+                self.extra[k] = bool(self.extra.get(k, False) or v)
+            elif isinstance(v, (int, float)) and ("max" in k or "bound" in k):
+                self.extra[k] = max(self.extra.get(k, v), v)
+            elif isinstance(v, (int, float)):
                 self.extra[k] = self.extra.get(k, 0) + v
             elif isinstance(v, list):
                 self.extra.setdefault(k, [])
